@@ -13,11 +13,14 @@ def _oc(ex):
 
 def _ellipsoids(rng, nuser):
     from pymeeus.Earth import Ellipsoid, IAU76, WGS84
-    out = [("IAU76", IAU76), ("WGS84", WGS84)]
+    # (name, object, the parameters AS GIVEN): a, f, omega are never read back from the object - the published
+    # constants of the two built-in ellipsoids and the arguments of the user ones are the reference
+    out = [("IAU76", IAU76, (6378140.0, 1.0 / 298.257, 7.292114992e-5)), ("WGS84", WGS84, (6378137.0, 1.0 / 298.257223563, 7292115e-11))]
     for i in range(nuser):
         f = rng.choice([0.0, 0.01, 1.0 / 298.257, rng.uniform(0, 0.01)])
         a = rng.choice([6378137.0, 6378140.0, 1737400.0, rng.uniform(1e6, 7e7)])
-        out.append(("user%d" % i, Ellipsoid(a, f, rng.uniform(1e-5, 1e-4))))
+        om = rng.uniform(1e-5, 1e-4)
+        out.append(("user%d" % i, Ellipsoid(a, f, om), (a, f, om)))
     return out
 
 
@@ -25,7 +28,7 @@ def gen_ell(seed, shard, nlat, nuser):
     from pymeeus.Earth import Earth
     from pymeeus.Angle import Angle
     rng = random.Random("ell/%s/%s" % (seed, shard))
-    for idx, (name, ell) in enumerate(_ellipsoids(rng, nuser)):
+    for idx, (name, ell, (pa, pf, pom)) in enumerate(_ellipsoids(rng, nuser)):
         if (idx + shard) % 2 == 0:
             e = Earth(ell)
         else:
@@ -38,7 +41,7 @@ def gen_ell(seed, shard, nlat, nuser):
         for i, lat in enumerate(lats):
             h = rng.choice([0.0, -500.0, 9000.0, rng.uniform(-500, 9000)])
             arg = lat if i % 3 else Angle(lat)
-            ev = {"k": "ell", "ell": name, "latf": lat, "hf": h, "a": fx(ell._a), "f": fx(ell._f), "om": fx(ell._omega),
+            ev = {"k": "ell", "ell": name, "latf": lat, "hf": h, "a": fx(pa), "f": fx(pf), "om": fx(pom),
                   "lat": fx(lat), "h": fx(h), "sphi": fx(math.sin(math.radians(lat))), "cphi": fx(math.cos(math.radians(lat)))}
             try:
                 ev.update(rc=fx(e.rho_cosphi(arg, h)), rs=fx(e.rho_sinphi(arg, h)), rc0=fx(e.rho_cosphi(arg, 0.0)),
@@ -60,7 +63,7 @@ def gen_dist(seed, shard, n, nuser):
     rng = random.Random("dist/%s/%s" % (seed, shard))
     ells = _ellipsoids(rng, nuser)
     for _ in range(n):
-        name, ell = rng.choice(ells)
+        name, ell, (pa, pf, pom) = rng.choice(ells)
         e = Earth(ell)
         if rng.random() < 0.3:
             from pymeeus.Earth import IAU76
@@ -82,8 +85,8 @@ def gen_dist(seed, shard, n, nuser):
         elif kind == "far":
             lon2, lat2 = lon1 + 180.0 - rng.choice([0.0, 0.5, 3.0, 10.0]), -lat1 + rng.choice([0.0, 0.5, 3.0])
         same = 1 if (lon1 == lon2 and lat1 == lat2) else 0
-        ev = {"k": "dist", "ell": name, "kind": kind, "p": [lon1, lat1, lon2, lat2], "a": fx(ell._a), "f": fx(ell._f), "same": same,
-              "eq": 0, "mer": 0, "gc": 0, "dlon": fx(0), "dint": fx(0), "sig": fx(0), "ff": ell._f}
+        ev = {"k": "dist", "ell": name, "kind": kind, "p": [lon1, lat1, lon2, lat2], "a": fx(pa), "f": fx(pf), "same": same,
+              "eq": 0, "mer": 0, "gc": 0, "dlon": fx(0), "dint": fx(0), "sig": fx(0), "ff": pf}
         try:
             d12 = e.distance(lon1, lat1, lon2, lat2)[0]
             d21 = e.distance(lon2, lat2, lon1, lat1)[0]
